@@ -6,6 +6,7 @@ The Spec never looks at the file bytes or at the scanners: it is a function of t
 `judge` evaluates it on the canonical observation printed by harness/cmd/c07 for the REAL provider.
 -/
 import Pandora.Model.C07Base
+import Pandora.Model.C07Frame
 
 namespace Pandora.Spec.C07
 open Pandora.Model.C07
@@ -89,6 +90,21 @@ def modelObs (res : List Ammo × Stop) : Option (String × List String) :=
 
 def obsLine (err : String) (reqs : List String) : String :=
   "err=" ++ err ++ " n=" ++ toString reqs.length ++ " reqs=" ++ ";".intercalate reqs
+
+/-! ### raw format: the request a frame denotes, in the canonical text of `canonReq`
+
+`frameReq` (`Pandora.Model.C07Frame`) reads the HTTP text of a plain frame; multi-valued headers print as `v+v`.
+This is what the Spec expects for a raw entry — a function of the frame the author wrote, not of what the code under
+test makes of it (`raw.DecodeRequest`). -/
+
+def fhdrsStr (h : List (Bytes × List Bytes)) : String :=
+  "|".intercalate (h.map fun kv => hex kv.1 ++ ":" ++ "+".intercalate (kv.2.map hex))
+
+def freqCore (r : FReq) : String :=
+  "m=" ++ hex r.method ++ ",u=" ++ hex r.uri ++ ",h=" ++ hex r.host ++ ",hd=" ++ fhdrsStr r.hdrs ++ ",b=" ++ hex r.body
+
+/-- canonical text of the request of a plain frame; `none`: the frame is outside the class `frameReq` reads -/
+def frameCanon (frame : Bytes) : Option String := (frameReq frame).map freqCore
 
 /-! ### raw format: the `headers` option on top of what `http.ReadRequest` made of the frame
 
